@@ -55,6 +55,12 @@ namespace cxx11_atomic {
     namespace atomics = cds::cxx11_atomic;
 #   define CDS_CXX11_ATOMIC_BEGIN_NAMESPACE namespace cds { namespace cxx11_atomic {
 #   define CDS_CXX11_ATOMIC_END_NAMESPACE }}
+#elif defined(KHIZMAX_LIBCDS_VERIF)
+    // Verification build: instrumented atomics supplied by the verification harness (off by default)
+#   include <cds_verif/atomic.h>
+    namespace atomics = cds_verif::atomics;
+#   define CDS_CXX11_ATOMIC_BEGIN_NAMESPACE namespace cds_verif { namespace atomics {
+#   define CDS_CXX11_ATOMIC_END_NAMESPACE }}
 #else
     // Compiler provided C++11 atomic
 #   include <atomic>
